@@ -1,4 +1,9 @@
+#[cfg(not(cosmian_cover_crypt_verif))]
 use std::sync::{Mutex, MutexGuard};
+
+// Verification hook (off by default): lets a controlled scheduler own the RNG lock.
+#[cfg(cosmian_cover_crypt_verif)]
+use shuttle::sync::{Mutex, MutexGuard};
 
 use cosmian_crypto_core::{reexport::rand_core::SeedableRng, CsRng, Secret, SymmetricKey};
 use zeroize::Zeroizing;
